@@ -6,6 +6,10 @@ CLAIMED = {
    text="Every one-call blob program on lengths 0..8 and every two-call program on lengths 0..3 (arguments -2..len+2, aliasing included) is enumerated, plus 20k (quick) / 400k (thorough) random programs of up to 12 calls, each executed on the real blob.Bytes and on a minimal Blob through the package helpers and compared call by call with a []byte model with explicit aliasing; self-aliasing Set is run under a watchdog whose firing counts only with a goroutine dump showing the mutex self-deadlock. Exploration is the right level: the claim is about all call sequences, and a monitor over generated executions is what this family offers.",
    note="Trusts the harness's []byte model (internal/blobprog). The typed-array blob (GOOS=js) is not covered by this check yet; detached handles (after a resize of an aliasing blob) are only checked for no-panic.",
    technique="differential runtime monitor against an executable []byte model over enumerated and random call programs"),
+ "C18": dict(level="exploration", design="4/C18",
+   text="All call sequences up to length 3 over {Get,GetHandler,Set,SetHandler,Abort,Commit} x keys {x,y} x handlers {ok,fail,abort-then-ok,abort-then-fail} are enumerated and 8k (quick) / 200k (thorough) random sequences of length 4..8 are sampled; each runs on the real mem transaction (verif hook) and on the serial fallback over a plain store and is compared with a map model: one result per call, ids in call order, Get values, handler errors, no effect after abort, and afterwards a fresh transaction must open, commit and show the model's state (watchdog + goroutine dump decide a leaked lock; a fatal double unlock kills the child process and is reported from its log). Groups of 2..3 free-running concurrent transactions on the mem store run under the race detector with a pair-of-keys isolation oracle.",
+   note="Trusts the harness's map model and plain store. Concurrent isolation is observed on free-running schedules only (no systematic interleaving at this level); Sets before an Abort are not expected to roll back.",
+   technique="runtime monitor against a map model over enumerated/random transaction call sequences; race detector + isolation oracle on concurrent transactions"),
 }
 NOT_YET = "monitor not built yet in this session (see DESIGN.md section 4 for the planned runtime monitor)"
 props = [json.loads(l)["id"] for l in open("/verif/properties.jsonl")]
